@@ -271,6 +271,14 @@ def run_channel_cases(ctx, n):
             for sig, op, got, want in check.bad:
                 ctx.fail("channelfile:" + sig, {"program": request_line(p2), "op": op_token(op)},
                          "real %s, reference %s" % (got, want))
+            if not f._closed:  # closing must deliver what is still buffered (also keeps __del__ quiet)
+                try:
+                    f.close()
+                except Exception as e:
+                    ctx.fail("channelfile:close-raises:" + core.exc_site(e), {"program": request_line(p2)}, repr(e))
+                if bytes(get_out()) != check.sent:
+                    ctx.fail("channelfile:write:close-incomplete", {"program": request_line(p2)},
+                             "peer got %s, written %s" % (hx(bytes(get_out())), hx(check.sent)))
             reqs.append(request_line(p2))
             impls.append(impl)
             cases.append(p2)
@@ -298,8 +306,8 @@ def run(ctx):
               "universal-newline mode ('U') is outside the model and the claim")
     ctx.build()
     rng = ctx.rng
-    n = 40000 if ctx.thorough else 6000
-    progs = [gen_program(rng, big=(i % 60 == 59)) for i in range(n)]
+    n = 40000 if ctx.thorough else 4000
+    progs = [gen_program(rng, big=(i % 80 == 79)) for i in range(n)]
     reqs = [request_line(p) for p in progs]
     replies = ctx.driver("C42", reqs)
     for i, p in enumerate(progs):
@@ -337,9 +345,27 @@ def run(ctx):
 
 
 META = {
-    "claimed": False,
-    "reason": "under construction",
-    "level": "",
-    "note": "",
+    "claimed": True,
+    "level": ("Proved in Lean for EVERY program (list of read(n)/read()/readline(size)/readlines(hint)/__next__/list(f)/"
+              "write/writelines/flush/close/tell), EVERY chunking of the underlying stream (arbitrary non-empty short "
+              "reads and short writes, universally quantified grant lists), every mode and buffer size: "
+              "stream_preserved (bytes returned ++ bytes still pending = the stream, nothing lost/duplicated/"
+              "reordered; bytes accepted by the stream ++ write buffer = bytes written, in order; no call fails "
+              "except closed/not-readable/not-writable), read_n_exact / read_all_exact / readline_exact / "
+              "iteration_exact (each result is a function of the pending bytes only — independent of the chunking), "
+              "readline_ends_at_newline_or_limit_or_eof, read_to_eof_complete, flush_complete (flush and close "
+              "deliver everything written), line_buffered_pushes_each_newline (nothing up to the last LF stays "
+              "buffered; unbuffered holds nothing back; sized holds < bufsize), setMode_good. "
+              "The model is a statement-level mirror of file.py tied by byte-exact differential runs of random "
+              "programs (return values, stream contents, _pos/_realpos/_rbuffer/_wbuffer) against a real "
+              "BufferedFile subclass with PRNG short reads/writes and three EOF styles; thorough tier also a real "
+              "ChannelFile over a real Transport/Channel pair with recorded chunking."),
+    "note": ("Binary and text mode (text mode = same bytes, readline result decoded by CPython; text-mode test "
+             "streams are ASCII). NOT covered: universal-newline mode 'U' (CR/CRLF translation, newlines attribute) — "
+             "neither modelled nor claimed; behaviour when the underlying _read/_write raises (the model mirrors it "
+             "but the C42 stream never raises). Theorems assume _DEFAULT_BUFSIZE >= 1 and that _write accepts at "
+             "least one byte per call (a stream accepting 0 bytes makes _write_all spin; modelled as Err.stall). "
+             "Trusted: Lean kernel + 3 standard axioms; the correspondence harness and generators; io.BytesIO as "
+             "the oracle's reference for read/readline/iteration."),
     "technique": "Lean 4 proof (induction over loop fuel and over programs) + differential correspondence",
 }
